@@ -66,6 +66,7 @@ Remaining == avail - pos
 H(e) == hist' = (IF KeepHist THEN Append(hist, e) ELSE hist)
 Call(n) ==
   /\ phase = "idle" /\ H([a |-> "read", n |-> n, eof |-> FALSE])
+  /\ ~(KeepHist /\ rerr # "none" /\ unread = 0)       \* generation runs end where the reader has ended
   /\ IF unread > 0
      THEN LET r == Mn(n, unread) IN
           /\ released' = released + r /\ unread' = unread - r
@@ -95,7 +96,7 @@ SrcFailsNow == Faults /\ ~fired /\ failAt = pos
 
 Fill ==
   /\ phase = "fill"
-  /\ \/ /\ SrcFailsNow /\ fired' = TRUE                                    \* (0, error)
+  /\ \/ /\ SrcFailsNow /\ fired' = TRUE /\ H([a |-> "srcfail", n |-> 0, eof |-> FALSE])   \* (0, error)
         /\ Decide(got, "IOERR") /\ UNCHANGED <<file, avail, pos, eofSeen, failAt, start, got, p>>
      \/ /\ ~SrcFailsNow /\ Remaining = 0 /\ eofSeen' = TRUE /\ H([a |-> "deliver", n |-> 0, eof |-> TRUE])  \* (0, EOF)
         /\ Decide(got, IF got = 0 THEN "EOF" ELSE "UEOF")
